@@ -169,6 +169,18 @@ def enum_ob(obid: str, functions: List[str], cases: Callable[[], Iterable[Any]],
     return Ob(obid, "bounded", functions, run, desc, timeout=timeout, tier=tier)
 
 
+def random_ob(prop: str, tier: str, seed: int) -> Optional[Ob]:
+    """seeded-random combination cases for the property (vfw/rcheck.py): a bounded stand-in, never counted as proof"""
+    from . import rcheck
+    if prop not in rcheck.PLAN:
+        return None
+    nq, nt, fns = rcheck.PLAN[prop]
+    n = nq if tier == "quick" else nt
+    base = int(seed) * 10 ** 6
+    return enum_ob(f"{prop}.random.enum", fns, lambda: range(base, base + n), getattr(rcheck, "check_" + prop),
+                   f"bounded: {n} seeded-random combination cases (seed {seed}) - " + rcheck.doc(prop), exhaustive=False, timeout=900)
+
+
 def anchor_modules(prop: str) -> List[str]:
     import os
     mods = []
